@@ -1780,6 +1780,51 @@ func ruleTernGuard(p *Program, r *Reporter) {
 			}
 		}
 	}
+	// nobody but the ternary parselet (and what it defers) writes the flag: a
+	// list or a bracket that clears it for its own items lets a ternary nest
+	{
+		var who *ssa.Function
+		var at token.Pos
+		// (a part of the ternary parselet — a function that nothing else calls —
+		// is the parselet)
+		var partOf func(g *ssa.Function, depth int) bool
+		partOf = func(g *ssa.Function, depth int) bool {
+			g = top(g)
+			if g == fn {
+				return true
+			}
+			if depth > 2 {
+				return false
+			}
+			sites := staticCallSites(p, g)
+			if len(sites) == 0 {
+				return false
+			}
+			for _, s := range sites {
+				if !partOf(s.Parent(), depth+1) {
+					return false
+				}
+			}
+			return true
+		}
+		for _, g := range pr.all {
+			if partOf(g, 0) {
+				continue
+			}
+			for _, b := range g.Blocks {
+				for _, ins := range b.Instrs {
+					if st, ok := ins.(*ssa.Store); ok && fieldKey(st.Addr) == flag && who == nil {
+						who, at = g, st.Pos()
+					}
+				}
+			}
+		}
+		if who != nil {
+			r.Fail("the in-ternary flag is written by the ternary parselet only", p.Pos(at), p.FnName(who)+" writes the in-ternary flag: while it has cleared it, a ternary inside the arm of another ternary is not seen — `a ? len(a ? \"ab\" : \"c\") : 3` is accepted although nested ternaries are a syntax error")
+		} else {
+			r.OkNT("the in-ternary flag is written by the ternary parselet only", p.Pos(fn.Pos()), "no other parse function stores into it")
+		}
+	}
 	r.Check(cleared, "ternary flag cleared on every exit", p.Pos(fn.Pos()), "deferred (or per-return) store of false", "the in-ternary flag stays set on some exit: every later ternary in the script is rejected as nested")
 	// the condition was parsed before the parselet ran (the flag was clear):
 	// it must be examined for a ternary of its own
